@@ -212,7 +212,8 @@ def r3_best_batch(ctx: Context) -> None:
         "existing_points[np.argsort(existing_losses)[:batch_size]]",
         "existing_points[np.argsort(existing_losses)[:batch_size], :]",
     )}
-    copies = [c for c in calls_in(sb.node) if (dotted(c.func) or "").endswith("copy") and c.args]
+    copies = [c for c in calls_in(sb.node) if ((dotted(c.func) or "").endswith("copy") or ((dotted(c.func) or "") in ("np.array", "numpy.array") and not any(
+        k.arg == "copy" and isinstance(k.value, ast.Constant) and k.value.value in (False, None) for k in c.keywords))) and c.args]
     parent_ok = False
     idx_expr = None
     for c in copies:
